@@ -44,6 +44,13 @@ func pairKinds() []reqKind {
 		{"in-add", func(s int) *Scenario {
 			return in("in-add", s, Doc("Add", act(s), "actor", who(s), "object", rn(s), "target", Col1))
 		}},
+		{"in-add-six-objects", func(s int) *Scenario {
+			var objs L
+			for i := 0; i < 6; i++ {
+				objs = append(objs, fmt.Sprintf("https://r1.example/n/six-%d-%d", s, i))
+			}
+			return in("in-add-six-objects", s, Doc("Add", act(s), "actor", who(s), "object", objs, "target", Col1))
+		}},
 		{"in-add-two-targets", func(s int) *Scenario {
 			return in("in-add-two-targets", s, Doc("Add", act(s), "actor", who(s), "object", rn(s), "target", []L{{Col1, OCol1}, {OCol1, Col1}}[s]))
 		}},
@@ -122,7 +129,7 @@ func tripleCorpus(only map[string]bool) []*ConcScenario {
 	var ks []reqKind
 	for _, k := range pairKinds() {
 		switch k.name {
-		case "get-inbox", "get-outbox", "get-object", "out-block", "out-follow", "in-add-two-targets", "in-delete", "out-remove":
+		case "get-inbox", "get-outbox", "get-object", "out-block", "out-follow", "in-add-two-targets", "in-add-six-objects", "in-delete", "out-remove":
 			continue
 		}
 		if only != nil && !only[k.name] {
